@@ -9,4 +9,6 @@ import vlib  # noqa: E402
 def build_broker(race=False):
     hdir = os.path.join(vlib.VERIF, "harness", "broker")
     hf = {"zz_verif_" + os.path.basename(f): f for f in glob.glob(os.path.join(hdir, "*_test.go"))}
-    return vlib.build_harness("broker", ["broker"], "broker", hf, race=race)
+    # common/messages is instrumented too (import swap only: it has no goroutines) so that a sync.Pool there
+    # becomes the deterministic model
+    return vlib.build_harness("broker", ["broker", "common/messages"], "broker", hf, race=race)
